@@ -2,6 +2,7 @@ import StraxModel.Driver.Parse
 import StraxModel.Model.Net
 import StraxModel.Model.PostOffice
 import StraxModel.Lemmas.NetOutcome
+import StraxModel.Model.KillExc
 /-
   Driver ops of property C06.
 
@@ -25,6 +26,12 @@ import StraxModel.Lemmas.NetOutcome
       mailbox = `key|closed killed|n_sent|have_read joined by .` ; thread = `name=ok|own[Injected[id]]|run`
       tree = `TreeNet ∧ SinksListed` holds for `certOf (wire …)` (the hypothesis of the net-level theorems)
 
+  `c06.kill <killed 0/1> <force_killed 0/1> <has reason 0/1> <call>`   (round 5: kill bookkeeping of ONE mailbox)
+      call = `k:<upstream 0|1|->:<reason given 0/1>` (`Mailbox.kill`; `-` = keyword default) |
+             `x:<m|o>:<reraise 0|1|->` (`kill_from_exception` of `MailboxKilled(arg0)` / of another exception)
+      answer `ok killed= force= reason=<none|old|new|arg0|triple> notified=<r.w.f|-> raised=<e|->`: flags and wake-ups by
+      `MB.kill` (a mailbox with one blocked waiter on each condition), reason by `Net.killReason` / `AMB.kill`,
+      re-raise by `Net.killFromException`
   `c06.po <op>;<op>;…`   (a script against one PostOffice; one answer token per op, then the final state)
       `P:<topics .>:<registered . or ->:<script>`  register_producer; script = `-` | instrs joined by `,`:
                                                   `g<k>` = next() on the k-th `_read` generator, `y` = yield, `x<e>` = raise e
@@ -174,6 +181,39 @@ def runOp (lazy mw mm targets loaders defs plugins savers fault consumer prio : 
   let (s, steps) := runPrio net (listed ++ rest) 100000 (init net) 0
   pure (showRun net s steps)
 
+/-! ### c06.kill (round 5) -/
+open Strax.Mailbox Strax.Net in
+def killOp (killed force has call : String) : Option String := do
+  let bit (s : String) : Option Bool := if s == "1" then some true else if s == "0" then some false else none
+  let k ← bit killed
+  let f ← bit force
+  let h ← bit has
+  -- one blocked waiter on each of the three conditions: a wake-up shows as `some true`
+  let mb : MB := { cap := some 1, lazy := true, gateRule := .hasMsg, heap := [],
+                   subs := [{ next := 0, waitingFor := none, canDrive := true, flag := some false }], nSent := 0, closed := false,
+                   killed := k, forceKilled := f, writeFlag := some false, fetchFlag := some false }
+  let old : Option Exc := if h then some (.inj 0) else none
+  let showSt (mb' : MB) (reason : Option Exc) (newName : String) (raised : Bool) : String :=
+    let woke := (if mb'.subs.all (fun s => s.flag == some true) then ["r"] else []) ++
+      (if mb'.writeFlag == some true then ["w"] else []) ++ (if mb'.fetchFlag == some true then ["f"] else [])
+    let rs := match reason with
+      | none => "none"
+      | some (.inj 0) => "old"
+      | some _ => newName
+    s!"ok killed={if mb'.killed then 1 else 0} force={if mb'.forceKilled then 1 else 0} reason={rs} " ++
+      s!"notified={if woke.isEmpty then "-" else ".".intercalate woke} raised={if raised then "e" else "-"}"
+  match call.splitOn ":" with
+  | ["k", up, rs] =>
+    let u ← if up == "-" then some killUpstreamDefault else bit up
+    let r ← bit rs
+    some (showSt (mb.kill u) (killReason k old (if r then some (.inj 1) else none)) "new" false)
+  | ["x", kind, rr] =>
+    let own ← if kind == "o" then some true else if kind == "m" then some false else none
+    let re ← if rr == "-" then some killReraiseDefault else bit rr
+    let (a', raised) := killFromException { killed := k, reason := old } own (.inj 1) re
+    some (showSt (mb.kill true) a'.reason (if own then "triple" else "arg0") raised)
+  | _ => none
+
 /-! ### c06.po -/
 open Strax.PostOffice
 
@@ -268,6 +308,7 @@ def handleC06 : List String → Option String
     C06.wireOp lazy mw mm targets loaders defs plugins savers
   | ["c06.run", lazy, mw, mm, targets, loaders, defs, plugins, savers, fault, consumer, prio] =>
     C06.runOp lazy mw mm targets loaders defs plugins savers fault consumer prio
+  | ["c06.kill", killed, force, has, call] => C06.killOp killed force has call
   | ["c06.po", ops] => C06.poRun (ops.splitOn ";")
   | _ => none
 
